@@ -55,6 +55,7 @@ K_PATH_HARD_PUB = 'C03/subkey_for_path/hardened-marker-dropped-in-public-derivat
 K_PRIV_UNHARD = 'C03/child_private/plain-index-ge-2^31-derived-with-unhardened-formula'
 K_PUB_INF = 'C03/child_public/point-at-infinity-not-refused'
 K_SEED_ZERO = 'C03/from_seed/zero-master-key-not-refused'
+K_SEED_SNIFF = 'C03/from_seed/bytes-seed-of-ascii-hex-digits-unhexlified'
 
 MARKERS = "'hHpP"
 WITNESS_TYPES = ('legacy', 'p2sh-segwit', 'segwit')
@@ -405,7 +406,17 @@ def _master(case, col):
     except Exception as e:
         col.violation(None, 'master key construction (%s) raised %r' % (src, e), dict(case, kind='master'), repr(e)[:300], _xkey_json(xm))
         return None, None
-    if not _check_key(col, km, xm, True, net, wt, dict(case, kind='master'), 'master (%s)' % src):
+    def sniffed(s):
+        # narrow predicate: the bytes seed is itself ASCII hex text and the library derived the master of the decoded text
+        if src != 'seed':
+            return None
+        try:
+            alt = ref.master(bytes.fromhex(seed.decode('ascii')))
+        except Exception:
+            return None
+        return K_SEED_SNIFF if not _diff(s, alt, True) else None
+
+    if not _check_key(col, km, xm, True, net, wt, dict(case, kind='master'), 'master (%s)' % src, key_fn=sniffed):
         return None, None
     return km, xm
 
@@ -619,7 +630,7 @@ def run_guard(case, col):
     from bitcoinlib import keys as K
     from bitcoinlib.keys import HDKey
     seed = bytes.fromhex(case['seed'])
-    k = HDKey.from_seed(seed, network=case['network'], witness_type=case['witness_type'])
+    k = HDKey.from_seed(seed.hex(), network=case['network'], witness_type=case['witness_type'])
     kpub = k.public()
     d = k.secret
     col.case('guard', nontrivial=None, sample=case)
@@ -657,7 +668,7 @@ def run_guard(case, col):
             col.violation(key, '%s with %s returned a key; BIP32 declares this derivation invalid' % (fn, name),
                           dict(case, kind='guard'), ph, 'refusal')
     # the stub must be gone
-    if K.hmac is not real or HDKey.from_seed(seed).private_hex != '%064x' % ref.master(seed).secret:
+    if K.hmac is not real or HDKey.from_seed(b'\x01' * 16).private_hex != '%064x' % ref.master(b'\x01' * 16).secret:
         col.note_inconclusive('HMAC stub was not removed')
 
 
